@@ -71,6 +71,9 @@ class Walker:
         k = node.get('kind')
         if k == 'FunctionDecl':
             self.func = node.get('name')
+        if k == 'FieldDecl' and node.get('isBitfield') and self.in_repo() and is_plain_char(node.get('type', {})):
+            self.sites.append(dict(file=self.relfile(), line=self.line, func='struct field ' + str(node.get('name')), kind='f',
+                                   detail='bit-field of plain char type: its signedness follows the signedness of plain char (a 1-bit field holds -1 or 1)'))
         if k == 'ImplicitCastExpr' and node.get('castKind') == 'IntegralCast' and self.in_repo():
             inner = (node.get('inner') or [{}])[0]
             if is_plain_char(inner.get('type', {})) and not is_plain_char(node.get('type', {})):
